@@ -327,7 +327,11 @@ Lemma write_model_session m f sh g w :
 Proof.
   unfold write_model. destruct (incr_session m 0 w) as (i1 & i2 & i3 & _). cbn zeta in i1, i2, i3.
   destruct (incr m 0 w) as [x|x]; cbn [andthen wof] in *.
-  - destruct (writer_session f sh g x) as (a & b1 & b2). split; [intros _; exact a|split; congruence].
+  - destruct (writer_session f sh g x) as (a & b1 & b2).
+    destruct (writer f sh g x) as [y|y]; cbn [wof] in *.
+    + split; [intros _; exact a|split; congruence].
+    + destruct (drop_partial_session m f y) as (d1 & d2 & d3).
+      split; [intros _; rewrite d3; exact a|split; congruence].
   - split; [intros H; congruence|split; assumption].
 Qed.
 
